@@ -86,6 +86,8 @@ def read_view(tb, fmt, codec, opts, kw=None):
                 t[3] = None
         if fmt in ("brackets", "discobrackets"):
             s["root"][1] = None        # an empty root label carries no edge: no obligation
+        if fmt == "discobrackets" and "disco_reordered" in opts:
+            reorder(s, "replace_parens" in opts)
         if "replace_parens" in opts:
             for t in s["tokens"]:
                 for i in range(5):
@@ -95,6 +97,35 @@ def read_view(tb, fmt, codec, opts, kw=None):
                 c[1] = rc.map_parens(c[1])
         out.append(s)
     return out
+
+
+def reorder(s, parens=False):
+    """disco_reordered ("output CF order with terminal indices"): the tokens in the order in
+    which the tree part of the line lists them (the encoder writes the children of a node in
+    stored order), numbered 1..n in that order, every word prefixed with the index it has in
+    the sentence part of the line, every token keeping its own word and tag."""
+    order = []
+
+    def walk(n):
+        for c in n[2]:
+            if isinstance(c, int):
+                order.append(c)
+            else:
+                walk(c)
+    walk(s["root"])
+    newpos = dict((idx, p + 1) for p, idx in enumerate(order))
+    toks = []
+    for idx in order:
+        t = list(s["tokens"][idx - 1])
+        t[0] = "%d-%s" % (idx, t[0])     # (no generated word begins with "LRB-" etc.)
+        toks.append(t)
+
+    def ren(n):
+        n[2] = [newpos[c] if isinstance(c, int) else ren(c) for c in n[2]]
+        return n
+    ren(s["root"])
+    s["tokens"] = toks
+    model.sort_children(s["root"])
 
 
 def dest_codec(fmt, dopts):
